@@ -442,6 +442,7 @@ class ConfigNode(metaclass=ConfigNodeMeta):
             self._safe = notnone_or(self._safe, True) and other._safe
         if other._default_safe is not None:
             self._default_safe = notnone_or(self._default_safe, True) and other._default_safe
+        self._inherit_unsafety(other)
         self._metadata = { **self._metadata, **other._metadata }
         if allow_promotions:
             ret = self._maybe_promote(other)
@@ -465,10 +466,22 @@ class ConfigNode(metaclass=ConfigNodeMeta):
             self._safe = notnone_or(self._safe, True) and other._safe
         if other._default_safe is not None:
             self._default_safe = notnone_or(self._default_safe, True) and other._default_safe
+        self._inherit_unsafety(other)
         self._metadata = { **other._metadata, **self._metadata }
         if allow_promotions:
             return self._maybe_promote(other)
         return self
+
+    def _inherit_unsafety(self, other):
+        ''' "other" might be unsafe only because of where it was written (below an !unsafe node,
+            in an unsafe source): that is not stored in its explicit flags, but the node which
+            absorbs it - and stays where it is, among safe nodes - has to remember it.
+        '''
+        if other._safe is None and other._implicit_safe is False:
+            if self._safe is None:
+                self._implicit_safe = False
+            else:
+                self._safe = False
 
     def _maybe_promote(self, other):
         ''' Possibly promote "other" to be returned rather than "self" if its type is preferred.
